@@ -111,6 +111,22 @@ def gen_history(rng, kind: str, length: int) -> list:
     return prog
 
 
+def template_programs(kind: str, rng) -> list:
+    """Directed histories: invalidate / round-trip / re-use patterns for every cached method of the class."""
+    meths = methods_for(kind)
+    progs = []
+    for m in meths:
+        for var in ("pos", "mom"):
+            a1, a2 = int(rng.integers(0, 10**6)), int(rng.integers(0, 10**6))
+            for trip in ("pickle", "deepcopy"):
+                progs.append([["call", 0, m, 0], ["assign", 0, var, a1], [trip, 0], ["call", 0, m, 0], ["assign", 0, var, a2], ["call", 0, m, 0]])
+                progs.append([["call", 0, m, 0], [trip, 0], ["assign", 0, var, a1], ["call", 0, m, 0]])
+            progs.append([["call", 0, m, 0], ["assign", 0, var, a1], ["copy", 0, False], ["call", 1, m, 0], ["assign", 1, var, a2], ["call", 1, m, 0],
+                          ["call", 0, m, 0]])
+            progs.append([["call", 0, m, 0], ["copy", 0, False], ["assign", 0, var, a1], ["call", 1, m, 0], ["call", 0, m, 0]])
+    return progs
+
+
 class Runner:
     """Executes a history on the real code while both monitors observe."""
 
@@ -273,6 +289,12 @@ class Runner:
         self.states[s] = st2
         self.known[s] = [k - CALLABLE_VALUES for k in self.known[s]]
 
+    def op_deepcopy(self, s) -> None:
+        import copy as _copy
+
+        self.states[s] = _copy.deepcopy(self.states[s])  # goes through __getstate__: callables are not carried over
+        self.known[s] = [k - CALLABLE_VALUES for k in self.known[s]]
+
     def op_flow(self, s, which_flow, t) -> None:
         if self.readonly[s]:
             return
@@ -331,6 +353,8 @@ class Runner:
                 self.op_copy(op[1], op[2])
             elif kind == "pickle":
                 self.op_pickle(op[1])
+            elif kind == "deepcopy":
+                self.op_deepcopy(op[1])
             elif kind == "flow":
                 self.op_flow(op[1], op[2], op[3])
             elif kind == "newsys":
